@@ -711,8 +711,11 @@ def _post_reaction(E, V):
     """stoichiometry and back references"""
     d0, v0 = stoich(E, E.s0)
     d1, v1 = stoich(E, E.s1)
-    return reaction_facts(d0, v0, d1, v1, H(E, E.s0, "_reaction"), H(E, E.s1, "_reaction"), rid(E),
-                          lambda y: touched(E, V, y), lambda y: final_coef(E, V, y))
+    # the attribute still holds the dictionary OBJECT it held at entry (a body that rebinds self._metabolites would otherwise pass:
+    # every clause below reads that object, and the frame check skips attributes whose entry object is listed in `modifies`)
+    same_obj = z3.BoolVal(bool(E.s1.objs[E["self"].oid]["attr:_metabolites"].oid == stoich_obj(E).oid))
+    return [same_obj] + reaction_facts(d0, v0, d1, v1, H(E, E.s0, "_reaction"), H(E, E.s1, "_reaction"), rid(E),
+                                       lambda y: touched(E, V, y), lambda y: final_coef(E, V, y))
 
 
 def _post_solver(E, V):
